@@ -470,18 +470,33 @@ theorem copeland_monotone (v v' : Pairwise) (w : Cand) (secondOrder : Bool) (hwf
     linarith
 
 open VL.Condorcet in
-/-- **Minimax** (winning votes, margins, pairwise opposition).  If `w`'s worst pairwise defeat in `v` is strictly
-    smaller than everybody else's (the one-seat result is `[w]`), the same holds in every `Raised` matrix `v'` over the
-    same candidates.  (`Positive`: stored counts are positive, as in every matrix built from ballots.) -/
+/-- **Minimax** (winning votes, margins, pairwise opposition; every ordered pair of candidates is scored, an unranked
+    pair counting zero against zero).  If `w`'s worst pairwise defeat in `v` is strictly smaller than everybody
+    else's (the one-seat result is `[w]`), the same holds in every `Raised` matrix `v'` over the same candidates. -/
 theorem minimax_monotone (sc : Condorcet.Scorer) (v v' : Pairwise) (w : Cand) (hwf : Condorcet.WF v) (hwf' : Condorcet.WF v')
-    (hp : Positive v) (hp' : Positive v') (hr : Raised v v' w)
-    (hc : ∀ c ∈ candidates v', c ∈ candidates v) (hw : w ∈ candidates v')
+    (hr : Raised v v' w) (hc : ∀ c, c ∈ candidates v' ↔ c ∈ candidates v)
     (h : minimax sc v 1 = [Slot.cand w]) : minimax sc v' 1 = [Slot.cand w] := by
-  rw [minimax_sole sc v hwf.1] at h
-  rw [minimax_sole sc v' hwf'.1]
-  refine ⟨hw, fun c hcc hcw => ?_⟩
-  exact wlt_of_wle_of_wlt_of_wle (worst_w_le sc hwf hwf' hp hp' hr) (h.2 c (hc c hcc) hcw)
-    (worst_y_ge sc hwf hwf' hp hp' hr hcw)
+  rw [minimax_eq_worst sc v hwf] at h
+  rw [minimax_eq_worst sc v' hwf']
+  have hn : (keys ((candidates v).map (fun c => (c, -(worstDefeat sc v c))))).Nodup := by
+    rw [keys_worstTable]; exact nodup_candidates v
+  have hn' : (keys ((candidates v').map (fun c => (c, -(worstDefeat sc v' c))))).Nodup := by
+    rw [keys_worstTable]; exact nodup_candidates v'
+  have hw : w ∈ candidates v := by
+    have := h
+    rw [sole_iff _ hn, soleMax_iff _ hn, keys_worstTable] at this
+    exact this.1
+  apply additive_sole _ _ hn hn' w ?_ ?_ ?_ h
+  · intro c hcc; rw [keys_worstTable] at hcc ⊢; exact (hc c).mp hcc
+  · rw [keys_worstTable]; exact (hc w).mpr hw
+  · intro c hcc hcw
+    rw [keys_worstTable] at hcc
+    have hcv := (hc c).mp hcc
+    rw [toFun_map_fn _ (nodup_candidates v') _ c hcc, toFun_map_fn _ (nodup_candidates v) _ c hcv,
+      toFun_map_fn _ (nodup_candidates v') _ w ((hc w).mpr hw), toFun_map_fn _ (nodup_candidates v) _ w hw]
+    have h1 := worstDefeat_w_le sc hwf hwf' hr hc hw
+    have h2 := worstDefeat_y_ge sc hwf hwf' hr hc hcv hcw
+    linarith
 
 /-! ### Copeland and minimax, on the level of the ballots
 
@@ -521,7 +536,11 @@ theorem copeland_monotone_bullet (p : RProfile) (w : Cand) (secondOrder : Bool) 
 theorem mem_candidates_of_minimax {sc : Condorcet.Scorer} {p : RProfile} {w : Cand} (hp : ProfileOK p)
     (h : evalMinimax sc p = [Slot.cand w]) : w ∈ Condorcet.candidates (pairwiseOf p) := by
   unfold evalMinimax at h
-  rw [minimax_sole sc _ (wf_pairwiseOf p hp).1.1] at h
+  rw [minimax_eq_worst sc _ (wf_pairwiseOf p hp).1] at h
+  have hn : (keys ((Condorcet.candidates (pairwiseOf p)).map
+      (fun c => (c, -(Condorcet.worstDefeat sc (pairwiseOf p) c))))).Nodup := by
+    rw [keys_worstTable]; exact Condorcet.nodup_candidates _
+  rw [sole_iff _ hn, soleMax_iff _ hn, keys_worstTable] at h
   exact h.1
 
 /-- **Minimax (winning votes / margins / pairwise opposition), single ballot improvement.** -/
@@ -531,7 +550,8 @@ theorem minimax_monotone_lift (sc : Condorcet.Scorer) (p : RProfile) (w : Cand) 
     evalMinimax sc (replaceUnit p b (lift w i b)) = [Slot.cand w] := by
   have hw := mem_candidates_of_minimax hp h
   have f := matrixFacts_lift p w i b hp hb hunit hok hw
-  exact minimax_monotone sc _ _ w f.wf f.wf' f.pos f.pos' f.raised f.cands (mem_candidates_lift p w i b hp hb hok hw) h
+  exact minimax_monotone sc _ _ w f.wf f.wf' f.raised
+    (fun c => ⟨f.cands c, candidates_lift_superset p w i b hp hb hok hw c⟩) h
 
 /-- **Minimax, new ballot**: a bullet ballot for the sole winner `w`. -/
 theorem minimax_monotone_bullet (sc : Condorcet.Scorer) (p : RProfile) (w : Cand) (hp : ProfileOK p)
@@ -539,7 +559,8 @@ theorem minimax_monotone_bullet (sc : Condorcet.Scorer) (p : RProfile) (w : Cand
     evalMinimax sc (addTo p [RankItem.one w] 1) = [Slot.cand w] := by
   have hw := mem_candidates_of_minimax hp h
   have f := matrixFacts_bullet p w hp hw
-  exact minimax_monotone sc _ _ w f.wf f.wf' f.pos f.pos' f.raised f.cands (mem_candidates_bullet p w hp hw) h
+  exact minimax_monotone sc _ _ w f.wf f.wf' f.raised
+    (fun c => ⟨f.cands c, candidates_bullet_superset p w (candidates_sub_arc p w hw) c⟩) h
 
 /-! ## non-vacuity: concrete inputs that meet the hypotheses of the conditional theorems -/
 
